@@ -222,6 +222,8 @@ def _nl(n):
 def spellings(lang, n):
     """[standard spelling, variants...] as token lists; [] when out of the covered range."""
     out = []
+    if n < 0 or n >= 10 ** 12:
+        return out
 
     def add(x):
         if x and x not in out:
@@ -295,6 +297,30 @@ def ordinal_spellings(lang, n):
             if toks not in out:
                 out.append(toks)
         return out
+    if lang in ('es', 'pt'):
+        # es / pt compose ordinals from inflected words: hundreds, tens, units (each an ordinal word)
+        if n > 1000:
+            return []
+        W = {'es': {1: 'primero', 2: 'segundo', 3: 'tercero', 4: 'cuarto', 5: 'quinto', 6: 'sexto', 7: 'séptimo', 8: 'octavo', 9: 'noveno', 10: 'décimo',
+                    11: 'undécimo', 12: 'duodécimo', 13: 'decimotercero', 14: 'decimocuarto', 15: 'decimoquinto', 16: 'decimosexto', 17: 'decimoséptimo',
+                    18: 'decimoctavo', 19: 'decimonoveno', 20: 'vigésimo', 30: 'trigésimo', 40: 'cuadragésimo', 50: 'quincuagésimo', 60: 'sexagésimo',
+                    70: 'septuagésimo', 80: 'octogésimo', 90: 'nonagésimo', 100: 'centésimo', 200: 'ducentésimo', 300: 'tricentésimo',
+                    400: 'cuadringentésimo', 500: 'quingentésimo', 600: 'sexcentésimo', 700: 'septingentésimo', 800: 'octingentésimo',
+                    900: 'noningentésimo', 1000: 'milésimo'},
+             'pt': {1: 'primeiro', 2: 'segundo', 3: 'terceiro', 4: 'quarto', 5: 'quinto', 6: 'sexto', 7: 'sétimo', 8: 'oitavo', 9: 'nono', 10: 'décimo',
+                    20: 'vigésimo', 30: 'trigésimo', 40: 'quadragésimo', 50: 'quinquagésimo', 60: 'sexagésimo', 70: 'septuagésimo', 80: 'octogésimo',
+                    90: 'nonagésimo', 100: 'centésimo', 200: 'ducentésimo', 300: 'trecentésimo', 400: 'quadringentésimo', 500: 'quingentésimo',
+                    600: 'sexcentésimo', 700: 'septingentésimo', 800: 'octingentésimo', 900: 'nongentésimo', 1000: 'milésimo'}}[lang]
+        if n == 1000:
+            return [[W[1000]]]
+        h, r = divmod(n, 100)
+        out = [W[h * 100]] if h else []
+        if r in W:
+            out.append(W[r])
+        elif r:
+            t, u = divmod(r, 10)
+            out += [W[t * 10], W[u]]
+        return [out]
     if lang == 'fr':
         if n == 1:
             return [['premier']]
